@@ -83,7 +83,10 @@ func VerifC01WriteSequence() {
 			want = append(want, expect{kind: vcKey})
 		}
 		if vf.NondetIntRange("isChord", 0, 1) == 1 {
-			rec, _ := verifDict.Map.GetChord(symbols[1])
+			// consecutive instances use different symbols (m7, sus4, major triad, …), so that
+			// nothing remembered from one chord can pass for the next
+			si := (i + 1) % 3
+			rec, _ := verifDict.Map.GetChord(symbols[si])
 			dn := vf.NondetInt("degree")
 			vf.Assume(1 <= dn)
 			vf.Assume(dn <= 7)
@@ -92,9 +95,12 @@ func VerifC01WriteSequence() {
 			in.Chord = &c
 			// the pitches the property demands, from the reference definitions only (nothing
 			// of the implementation is consulted): middle C + tonic of the key in force +
-			// major-scale size of the degree; m7 = 0-3-7-10 above it, bass = root an octave down
+			// major-scale size of the degree; "" = 0-4-7, m7 = 0-3-7-10, sus4 = 0-5-7 above it, bass = root an octave down
 			root := 60 + spec.RawPitch(cl, ca) + [8]int{0, 0, 2, 4, 5, 7, 9, 11}[dn]
-			keys := []MIDINoteNumber{MIDINoteNumber(root - 12), MIDINoteNumber(root), MIDINoteNumber(root + 3), MIDINoteNumber(root + 7), MIDINoteNumber(root + 10)}
+			keys := []MIDINoteNumber{MIDINoteNumber(root - 12)}
+			for _, iv := range [][]int{{0, 4, 7}, {0, 3, 7, 10}, {0, 5, 7}}[si] {
+				keys = append(keys, MIDINoteNumber(root+iv))
+			}
 			want = append(want, expect{kind: vcNote, keys: keys, value: value, vel: vel})
 		} else {
 			want = append(want, expect{kind: vcRest, value: value})
